@@ -30,6 +30,9 @@ def _name(rng) -> str:
     return "v" + format(int(rng.integers(0, 1 << 30)), "x")
 
 
+_COUNT: list = [None]
+
+
 def gen_instance(rng, cls: str) -> dict:
     """One instance description of the given class."""
     if cls == "tiny":
@@ -77,6 +80,23 @@ def gen_instance(rng, cls: str) -> dict:
                 "cls": cls}
     if cls == "dtype":
         return _gen_dtype_boundary(rng)
+    if cls == "count":
+        # EVERY total item count from 5 to 150 in turn (not only the
+        # windows around powers of two), two to four small item types
+        if _COUNT[0] is None:
+            _COUNT[0] = int(rng.integers(0, 146))
+        _COUNT[0] = (_COUNT[0] + 1) % 146
+        n = 5 + _COUNT[0]
+        W = int(rng.integers(3, 13))
+        H = int(rng.integers(3, 13))
+        t = int(rng.integers(2, 5))
+        cuts = sorted(int(v) for v in rng.choice(
+            np.arange(1, n), t - 1, replace=False))
+        reps = [b - a for a, b in zip([0] + cuts, cuts + [n])]
+        items = [[int(rng.integers(1, min(4, W) + 1)),
+                  int(rng.integers(1, min(4, H) + 1)), r] for r in reps]
+        return {"name": _name(rng), "W": W, "H": H, "items": items,
+                "cls": cls}
     if cls == "unit":
         # many unit items: n_items + 1 at the int8 edge, tiny bins
         n = int(rng.choice([125, 126, 127, 128, 129]))
@@ -245,11 +265,41 @@ def make_real(desc: dict):
         inst = Instance(desc["name"], desc["W"], desc["H"], arr)
         arr[:, :] = 1           # the caller's buffer lives on
         ALIAS_BUILT[0] += 1
+    elif _ALIAS[0] % 8 == 3 and time.time() - t0 < 0.05:
+        # the matrix argument is itself an Instance - one that was built
+        # for OTHER items of the same count and total area (another aspect
+        # ratio of one type) and then overwritten in place with this data:
+        # whatever that object remembers about itself is stale
+        W, H = desc["W"], desc["H"]
+        if max(W, H) > 4096:
+            return inst
+        other = [list(r) for r in desc["items"]]
+        for r in other:
+            a = r[0] * r[1]
+            alts = [(w, a // w) for w in range(1, max(W, H) + 1)
+                    if a % w == 0 and (w, a // w) != (r[0], r[1])
+                    and (w, a // w) != (r[1], r[0])
+                    and ((w <= W and a // w <= H) or (w <= H and a // w <= W))]
+            if alts:
+                r[0], r[1] = alts[(_ALIAS[0] // 8) % len(alts)]
+                break
+        else:
+            return inst
+        try:
+            src = Instance(desc["name"] + "o", W, H, other)
+        except ValueError:
+            return inst
+        if int(np.iinfo(src.dtype).max) >= max(max(r) for r in desc["items"]):
+            src[:, :] = np.array(desc["items"])
+            inst = Instance(desc["name"], W, H, src)
+            src[:, :] = 1
+            STALE_BUILT[0] += 1
     return inst
 
 
 _ALIAS = [0]
 ALIAS_BUILT = [0]
+STALE_BUILT = [0]
 
 
 def rng_free_choice(k: int) -> bool:
